@@ -36,6 +36,7 @@ MECH_CFG = '''CONSTANTS
   NInst = 1
   Regs = {1}
   OutSels = {0}
+  OutSelsRen = {}
   ReAdmin = "keep"
   Design = "repaired"
   MaxOps = 1
